@@ -246,3 +246,144 @@ theorem jobOpen_of_append {Y s : State} {nj : Job} (hJ : Y.jobs = s.jobs ++ [nj]
   · rfl
 
 end Desync
+
+namespace Desync
+open Gen
+
+/-- has job `j` begun / ended -/
+def State.jobB (s : State) (j : Nat) : Bool := match s.jobs[j]? with | some b => b.begun | none => false
+def State.jobE (s : State) (j : Nat) : Bool := match s.jobs[j]? with | some b => b.ended | none => false
+
+theorem jobOpen_eq (s : State) (j : Nat) : s.jobOpen j = (s.jobB j && !s.jobE j) := by
+  simp only [State.jobOpen, State.jobB, State.jobE]; split <;> simp
+theorem jobB_of {s : State} {j : Nat} {b : Job} (h : s.jobs[j]? = some b) : s.jobB j = b.begun := by simp [State.jobB, h]
+theorem jobE_of {s : State} {j : Nat} {b : Job} (h : s.jobs[j]? = some b) : s.jobE j = b.ended := by simp [State.jobE, h]
+
+@[simp] theorem jobB_setQ (s : State) (q : Nat) (v : JobQ) (i : Nat) : (s.setQ q v).jobB i = s.jobB i := rfl
+@[simp] theorem jobB_setFut (s : State) (f : Nat) (v : Fut) (i : Nat) : (s.setFut f v).jobB i = s.jobB i := rfl
+@[simp] theorem jobB_setGate (s : State) (g : Nat) (v : Gate) (i : Nat) : (s.setGate g v).jobB i = s.jobB i := rfl
+@[simp] theorem jobB_setAct (s : State) (a : Nat) (v : Act) (i : Nat) : (s.setAct a v).jobB i = s.jobB i := rfl
+@[simp] theorem jobB_setSf (s : State) (u : Nat) (v : SyncFut) (i : Nat) : (s.setSf u v).jobB i = s.jobB i := rfl
+@[simp] theorem jobB_setPThr (s : State) (p : Nat) (v : PThr) (i : Nat) : (s.setPThr p v).jobB i = s.jobB i := rfl
+@[simp] theorem jobB_setHolder (s : State) (q : Nat) (h : Option Nat) (i : Nat) : (s.setHolder q h).jobB i = s.jobB i := rfl
+@[simp] theorem jobB_takeReady (s : State) (w a : Nat) (i : Nat) : (s.takeReady w a).jobB i = s.jobB i := rfl
+@[simp] theorem jobB_dropReady (s : State) (w : Nat) (i : Nat) : (s.dropReady w).jobB i = s.jobB i := rfl
+@[simp] theorem jobB_goto (s : State) (a : Nat) (pc : Pc) (i : Nat) : (s.goto a pc).jobB i = s.jobB i := by unfold State.goto; split <;> rfl
+@[simp] theorem jobB_setWoken (s : State) (a : Nat) (b : Bool) (i : Nat) : (s.setWoken a b).jobB i = s.jobB i := by unfold State.setWoken; split <;> rfl
+@[simp] theorem jobB_notify (s : State) (w : Nat) (i : Nat) : (s.notify w).jobB i = s.jobB i := by unfold State.notify; split <;> (try split) <;> rfl
+@[simp] theorem jobB_setQState (s : State) (q : Nat) (st : QState) (i : Nat) : (s.setQState q st).jobB i = s.jobB i := by unfold State.setQState; split <;> rfl
+@[simp] theorem jobB_pushBack (s : State) (q j : Nat) (i : Nat) : (s.pushBack q j).jobB i = s.jobB i := by unfold State.pushBack; split <;> rfl
+@[simp] theorem jobB_pushFront (s : State) (q j : Nat) (i : Nat) : (s.pushFront q j).jobB i = s.jobB i := by unfold State.pushFront; split <;> rfl
+
+theorem jobB_setJob_of {s : State} {j : Nat} {b : Job} (hj : s.jobs[j]? = some b) (v : Job) (i : Nat) :
+    (s.setJob j v).jobB i = if i = j then v.begun else s.jobB i := by
+  have hlt : j < s.jobs.length := (List.getElem?_eq_some_iff.mp hj).1
+  simp only [State.jobB, State.setJob, List.getElem?_set]
+  by_cases h : i = j
+  · subst h; simp [hlt]
+  · have : ¬ j = i := fun e => h e.symm
+    simp [h, this]
+
+@[simp] theorem jobB_setJobPh (s : State) (j : Nat) (ph : Phase) (i : Nat) : (s.setJobPh j ph).jobB i = s.jobB i := by
+  unfold State.setJobPh
+  split
+  · next v hv =>
+    rw [jobB_setJob_of hv]
+    by_cases e : i = j
+    · simp [e, jobB_of hv]
+    · simp [e]
+  · rfl
+
+theorem jobB_fresh (s : State) (i : Nat) (h : s.jobs.length ≤ i) : s.jobB i = false := by
+  have : s.jobs[i]? = none := by simpa using h
+  simp [State.jobB, this]
+
+theorem jobB_of_append {Y s : State} {nj : Job} (hJ : Y.jobs = s.jobs ++ [nj]) (i : Nat) :
+    Y.jobB i = if i = s.jobs.length then nj.begun else s.jobB i := by
+  simp only [State.jobB, hJ]
+  by_cases h : i = s.jobs.length
+  · subst h; simp
+  · by_cases hlt : i < s.jobs.length
+    · simp [h, List.getElem?_append_left hlt]
+    · have h1 : (s.jobs ++ [nj])[i]? = none := by simp; omega
+      have h2 : s.jobs[i]? = none := by simp; omega
+      simp [h, h1, h2]
+
+@[simp] theorem jobB_newJob (s : State) (q : Nat) (kind : JobKind) (i : Nat) : (s.newJob q kind).1.jobB i = s.jobB i := by
+  rw [jobB_of_append (s := s) (nj := { q := q, kind := kind, ph := .queued, begun := false, ended := false, reg := none }) rfl]
+  split
+  · next h => rw [h, jobB_fresh s _ (Nat.le_refl _)]
+  · rfl
+
+@[simp] theorem jobE_setQ (s : State) (q : Nat) (v : JobQ) (i : Nat) : (s.setQ q v).jobE i = s.jobE i := rfl
+@[simp] theorem jobE_setFut (s : State) (f : Nat) (v : Fut) (i : Nat) : (s.setFut f v).jobE i = s.jobE i := rfl
+@[simp] theorem jobE_setGate (s : State) (g : Nat) (v : Gate) (i : Nat) : (s.setGate g v).jobE i = s.jobE i := rfl
+@[simp] theorem jobE_setAct (s : State) (a : Nat) (v : Act) (i : Nat) : (s.setAct a v).jobE i = s.jobE i := rfl
+@[simp] theorem jobE_setSf (s : State) (u : Nat) (v : SyncFut) (i : Nat) : (s.setSf u v).jobE i = s.jobE i := rfl
+@[simp] theorem jobE_setPThr (s : State) (p : Nat) (v : PThr) (i : Nat) : (s.setPThr p v).jobE i = s.jobE i := rfl
+@[simp] theorem jobE_setHolder (s : State) (q : Nat) (h : Option Nat) (i : Nat) : (s.setHolder q h).jobE i = s.jobE i := rfl
+@[simp] theorem jobE_takeReady (s : State) (w a : Nat) (i : Nat) : (s.takeReady w a).jobE i = s.jobE i := rfl
+@[simp] theorem jobE_dropReady (s : State) (w : Nat) (i : Nat) : (s.dropReady w).jobE i = s.jobE i := rfl
+@[simp] theorem jobE_goto (s : State) (a : Nat) (pc : Pc) (i : Nat) : (s.goto a pc).jobE i = s.jobE i := by unfold State.goto; split <;> rfl
+@[simp] theorem jobE_setWoken (s : State) (a : Nat) (b : Bool) (i : Nat) : (s.setWoken a b).jobE i = s.jobE i := by unfold State.setWoken; split <;> rfl
+@[simp] theorem jobE_notify (s : State) (w : Nat) (i : Nat) : (s.notify w).jobE i = s.jobE i := by unfold State.notify; split <;> (try split) <;> rfl
+@[simp] theorem jobE_setQState (s : State) (q : Nat) (st : QState) (i : Nat) : (s.setQState q st).jobE i = s.jobE i := by unfold State.setQState; split <;> rfl
+@[simp] theorem jobE_pushBack (s : State) (q j : Nat) (i : Nat) : (s.pushBack q j).jobE i = s.jobE i := by unfold State.pushBack; split <;> rfl
+@[simp] theorem jobE_pushFront (s : State) (q j : Nat) (i : Nat) : (s.pushFront q j).jobE i = s.jobE i := by unfold State.pushFront; split <;> rfl
+
+theorem jobE_setJob_of {s : State} {j : Nat} {b : Job} (hj : s.jobs[j]? = some b) (v : Job) (i : Nat) :
+    (s.setJob j v).jobE i = if i = j then v.ended else s.jobE i := by
+  have hlt : j < s.jobs.length := (List.getElem?_eq_some_iff.mp hj).1
+  simp only [State.jobE, State.setJob, List.getElem?_set]
+  by_cases h : i = j
+  · subst h; simp [hlt]
+  · have : ¬ j = i := fun e => h e.symm
+    simp [h, this]
+
+@[simp] theorem jobE_setJobPh (s : State) (j : Nat) (ph : Phase) (i : Nat) : (s.setJobPh j ph).jobE i = s.jobE i := by
+  unfold State.setJobPh
+  split
+  · next v hv =>
+    rw [jobE_setJob_of hv]
+    by_cases e : i = j
+    · simp [e, jobE_of hv]
+    · simp [e]
+  · rfl
+
+theorem jobE_fresh (s : State) (i : Nat) (h : s.jobs.length ≤ i) : s.jobE i = false := by
+  have : s.jobs[i]? = none := by simpa using h
+  simp [State.jobE, this]
+
+theorem jobE_of_append {Y s : State} {nj : Job} (hJ : Y.jobs = s.jobs ++ [nj]) (i : Nat) :
+    Y.jobE i = if i = s.jobs.length then nj.ended else s.jobE i := by
+  simp only [State.jobE, hJ]
+  by_cases h : i = s.jobs.length
+  · subst h; simp
+  · by_cases hlt : i < s.jobs.length
+    · simp [h, List.getElem?_append_left hlt]
+    · have h1 : (s.jobs ++ [nj])[i]? = none := by simp; omega
+      have h2 : s.jobs[i]? = none := by simp; omega
+      simp [h, h1, h2]
+
+@[simp] theorem jobE_newJob (s : State) (q : Nat) (kind : JobKind) (i : Nat) : (s.newJob q kind).1.jobE i = s.jobE i := by
+  rw [jobE_of_append (s := s) (nj := { q := q, kind := kind, ph := .queued, begun := false, ended := false, reg := none }) rfl]
+  split
+  · next h => rw [h, jobE_fresh s _ (Nat.le_refl _)]
+  · rfl
+
+
+theorem jobPQ_none_of_ge (s : State) (i : Nat) (h : s.jobs.length ≤ i) : s.jobPQ i = none := by
+  have : s.jobs[i]? = none := by simpa using h
+  simp [State.jobPQ, this]
+
+theorem lt_of_jobPQ {s : State} {j : Nat} {pq : Phase × Nat} (h : s.jobPQ j = some pq) : j < s.jobs.length := by
+  rcases Nat.lt_or_ge j s.jobs.length with hl | hn
+  · exact hl
+  · rw [jobPQ_none_of_ge s j hn] at h; cases h
+
+@[simp] theorem jobs_length_setJob (s : State) (j : Nat) (v : Job) : (s.setJob j v).jobs.length = s.jobs.length := by simp [State.setJob]
+@[simp] theorem jobs_length_newJob (s : State) (q : Nat) (kind : JobKind) : (s.newJob q kind).1.jobs.length = s.jobs.length + 1 := by simp [State.newJob]
+@[simp] theorem jobs_length_setJobPh (s : State) (j : Nat) (ph : Phase) : (s.setJobPh j ph).jobs.length = s.jobs.length := by
+  unfold State.setJobPh; split <;> simp
+
+end Desync
